@@ -138,6 +138,12 @@ def Hist.afterStep (h : Hist) (s : Step) : Hist :=
     | .ended _ => { h with ended := true }
     | .state st => { h with gwState := st, asleep := st == .asleep }
     | .reg l => { h with gwReg := l }
+    | .buf l =>
+      -- REGISTERs queued for the sleeping client are REGISTERs the gateway issued
+      l.foldl (fun h b => match decode b with
+        | .ok (_, .register tid mid name) =>
+          if h.gwRegisters.contains (mid, tid, name) then h else { h with gwRegisters := (mid, tid, name) :: h.gwRegisters }
+        | _ => h) h
     | .sn b => (match decode b with
       | .ok (_, .connack rc) => if rc == 0 then { h with clientConnacked := true } else h
       | .ok (_, .regack tid mid rc) =>
@@ -339,7 +345,18 @@ def c04 (cfg : Cfg) (tr : List TE) : List Viol :=
       (match handed.lookup id with
        | some n0 => if n0 != n then [{ sig := "topic-id-reassigned", detail := s!"t={s.t} id={id}" : Viol }] else []
        | none => if h.exhaustedSeen then [{ sig := "new-topic-id-after-exhaustion", detail := s!"t={s.t} id={id}" : Viol }] else [])
-    (h.afterStep s, handed ++ (news.map fun (id, n, _) => (id, n)), vs ++ v)) ({ endedAt := endedAtOf tr }, [], [])
+    -- every new binding in the handler's registry is justified by what was exchanged
+    let h' := h.afterStep s
+    let newBindings := h'.gwReg.filter fun b => !h.gwReg.contains b
+    let vj := newBindings.flatMap fun (id, n) =>
+      let ok := match s.snIn with
+        | some (.register _ _ name) => name == n
+        | some (.subscribe _ q 0 _ _ name) => name == n && q ≤ 2 && !Gw.hasWildcard name
+        -- (the gateway pairs a REGACK with its REGISTER by message ID only)
+        | some (.regack _ mid rc) => rc == 0 && h'.gwRegisters.contains (mid, id, n)
+        | _ => false
+      if ok then [] else [{ sig := "unjustified-registry-binding", detail := s!"t={s.t} id={id}" : Viol }]
+    (h', handed ++ (news.map fun (id, n, _) => (id, n)), vs ++ v ++ vj)) ({ endedAt := endedAtOf tr }, [], [])
   vs
 
 /-! ## C07 — no active session without a broker-accepted CONNECT -/
